@@ -161,8 +161,8 @@ def CASES(tier, seed):
                           opts=OA))
     OB = dict(max_paths=40000, max_wall_s=220 if quick else 1600, validate_paths=2, hard_timeout_s=235 if quick else 1750)
     for si, st in enumerate(P1.structs_B(tier, seed)):
-        if (quick and si in (3, 4, 5, 6)) or st['rank'] > 3:
-            continue  # rank 4 structures: C01 thorough only
+        if (quick and si in (3, 4, 5, 6)) or st['rank'] > 3 or P1.dense_size(st) > 64:
+            continue  # rank 4 / large structures: C01 thorough only
         cb = dict(subset='draw' if si % 3 else 'all', prestate=['reversed', 'rotated', 'sorted'][si % 3], legflags=['computed', 'false'][si % 2],
                   opt_level=[1, 0, 3][si % 3])
         for ci, chunk in enumerate(P1._chunks(opsB, 40 if tier == 'quick' else (8 if st['rank'] > 3 else 14))):
